@@ -433,6 +433,10 @@ class World:
                 if r and f.promised not in out_rst and any(
                         ev['t'] == 'PushedStreamReceived' and ev.get('pushed_stream_id') == f.promised for ev in (s.events or ())):
                     r = False       # (the RST_STREAM on the parent answers another frame of the burst: the promise was reported)
+                if not r and st is not None and st.state == 'closed' and st.closed_by == 'rst_sent' and \
+                        any(u.type == C.GOAWAY for u in units[i + 1:]) and not any(
+                            ev['t'] == 'PushedStreamReceived' and ev.get('pushed_stream_id') == f.promised for ev in (s.events or ())):
+                    r = True        # refused, but the RST_STREAM saying so was discarded with all pending output by the GOAWAY
             rej.append(r)
             last = (i == len(units) - 1)
             if f.table_updates and not f.hpack_error and \
